@@ -909,7 +909,7 @@ evaluate() const {
       return Result(r1.as_integer() >> r2.as_integer());
 
     case '?':
-      return r1.as_integer() ?
+      return r1.as_boolean() ?
         _u._op._op2->evaluate() : _u._op._op3->evaluate();
 
     case '.':
